@@ -7,8 +7,8 @@ from common import Driver, DriverFailure, hx
 
 LEVEL = "proof"
 MANIFEST = dict(
-    text="Lean 4 theorems over ALL field values (Python ints as Int, arbitrary byte strings and lists), stated about the definitions regenerated from the source on every run. (1) a constructor returns exactly for the in-range values, everything else raises (inRange_iff_encodes, encode_rejects). (2) for every one of the 24 packet message forms the content the constructor produces is decoded, by every handler class meant for it, to exactly the fields it was built from (roundtrip: generic struct pack/unpack inversion over the format strings read from the source; statp_roundtrip; reminders_roundtrip with signed days; setwc_roundtrip; files_roundtrip for every shipped platform name and EVERY pair of version numbers). (3) hello round trip for every spa name incl. names containing '|' (hello_roundtrip) and the broadcast / client forms. (4) the one regex of _extract_packet_parts is modelled as a backtracking matcher (leftmost start, greedy/lazy groups read from the source): framing round-trips for ARBITRARY payload bytes and all '<'-free identifier pairs (frame_roundtrip), replies are addressed back with source and destination swapped (reply_swaps), sender-to-receiver composition for every form (wire_roundtrip). (5) the content of EVERY message the library builds is accepted by exactly the handler class(es) of its verb among the standard classes, each datagram by exactly the hello / packet handler, verbs pairwise prefix-free, no orphan verbs (claimed_by_exactly, orphan_none, datagram_claimed, verbs_prefix_free). (6) the model reproduces all 83 byte vectors of tests/test_protocol.py (pinned_encode / pinned_decode / pinned_claims, re-extracted every run). What the code did before the fixes of D2/D3/D4 is kept as theorems about the explicit old parameters (hello_name_with_bar_fails, frame_roundtrip_fails, frame_roundtrip_greedy, hello_roundtrip_split, old_watercare_claims_miss_setwc_wcreq); the search tries those inputs first on every run. Session 4: a long-lived partial-update handler acknowledges two packets from one address that carry different identifier pairs: each acknowledgement must be addressed from the packet it answers. State inventory of the decoders (decoder_state_inventory over the regenerated skeletons of the packet, status-block and hello handlers)."
-         " Since session 3: every search message is also decoded on ONE long-lived instance per handler class in the roles where the library keeps an instance alive (hello, async partial update, the simulator's request handlers) and must give the fields it was built from; hello_history_independent proves it for the hello handler over the generated reset list (Model/HelloObject.lean).",
+    text="Lean 4 theorems over ALL field values (Python ints as Int, arbitrary byte strings and lists), stated about the definitions regenerated from the source on every run. (1) a constructor returns exactly for the in-range values, everything else raises (inRange_iff_encodes, encode_rejects). (2) for every one of the 24 packet message forms the content the constructor produces is decoded, by every handler class meant for it, to exactly the fields it was built from (roundtrip: generic struct pack/unpack inversion over the format strings read from the source; statp_roundtrip; reminders_roundtrip with signed days; setwc_roundtrip; files_roundtrip for every shipped platform name and EVERY pair of version numbers). (3) hello round trip for every spa name incl. names containing '|' (hello_roundtrip) and the broadcast / client forms. (4) the one regex of _extract_packet_parts is modelled as a backtracking matcher (leftmost start, greedy/lazy groups read from the source): framing round-trips for ARBITRARY payload bytes and all '<'-free identifier pairs (frame_roundtrip), replies are addressed back with source and destination swapped (reply_swaps), sender-to-receiver composition for every form (wire_roundtrip). (5) the content of EVERY message the library builds is accepted by exactly the handler class(es) of its verb among the standard classes, each datagram by exactly the hello / packet handler, verbs pairwise prefix-free, no orphan verbs (claimed_by_exactly, orphan_none, datagram_claimed, verbs_prefix_free). (6) the model reproduces all 83 byte vectors of tests/test_protocol.py (pinned_encode / pinned_decode / pinned_claims, re-extracted every run). What the code did before the fixes of D2/D3/D4 is kept as theorems about the explicit old parameters (hello_name_with_bar_fails, frame_roundtrip_fails, frame_roundtrip_greedy, hello_roundtrip_split, old_watercare_claims_miss_setwc_wcreq); the search tries those inputs first on every run."
+         " Since session 3: every search message is also decoded on ONE long-lived instance per handler class in the roles where the library keeps an instance alive (hello, async partial update, the simulator's request handlers) and must give the fields it was built from; hello_history_independent proves it for the hello handler over the generated reset list (Model/HelloObject.lean). Session 4: a long-lived partial-update handler acknowledges two packets from one address that carry different identifier pairs: each acknowledgement must be addressed from the packet it answers. State inventory of the decoders (decoder_state_inventory over the regenerated skeletons of the packet, status-block and hello handlers).",
     note="Trusted: Lean kernel; harness/gen_c04.py (verbs, tags, struct formats per call site, can_handle verb lists, regex literals + greediness, hello split arity, literal payloads, platform names, test vectors: read from the source by ast; shapes outside the expected ones are refused); the hand-written slices / branch order / exception kinds of Model/Wire.lean and the backtracking reading of Python's re are tied to the code by a differential correspondence (real constructors' send_bytes, real handle(), every can_handle of every class, the real regex on an adversarial delimiter corpus, a malformed stream). latin-1 = identity on 0..255 is exercised, not proved. Layout oracle = the repository's own captured test vectors. int() inputs with signs/underscores/whitespace are out of model (skipped, counted). Identifiers are assumed free of '<'; STATP lists of the shape the 4-byte-record decoder reads; reminder types in GeckoReminderType; client identifiers start with IOS/AND.",
     technique="Lean 4 proofs by cases over an inductive message type + generic struct inversion + explicit backtracking-regex model; source-translated formats/verbs/regex shape; differential correspondence; encoder-decoder composition search on the real code",
     design="5/C04",
@@ -443,6 +443,11 @@ def g_name(rng):
     r = rng.random()
     if r < 0.25:
         return rng.choice([b"", b"Spa", b"My Spa", b"Name", b"a|b", b"|", b"||", b"Caf\xe9 Spa", b"1", b"IOS", b"x\ny", b"\x00"])
+    if r < 0.40:
+        # latin-1 names whose BYTES are also well-formed multi-byte UTF-8 (a decoder that tries UTF-8 first changes them)
+        lead = rng.choice([(0xC2, 0xA0 + rng.randrange(0x20)), (0xC3, 0x80 + rng.randrange(0x40)), (0xC2, 0xAE), (0xC3, 0xA9),
+                           (0xE2, 0x82, 0xAC), (0xF0, 0x9F, 0x98, 0x80)])
+        return rng.choice([b"", b"Spa ", b"x"]) + bytes(lead) + rng.choice([b"", b" t", bytes(rng.choice([(0xC3, 0xBC), (0xC2, 0xB0)]))])
     return bytes(rng.choice([32, 65, 97, 124, 233, 255, 10, 0, 60, 62, rng.randrange(256)]) for _ in range(rng.randrange(0, 12)))
 
 
